@@ -286,9 +286,11 @@ func (app *App) addPrefixToRoute(prefix string, route *Route) *Route {
 
 	route.Path = prefixedPath
 	route.path = RemoveEscapeChar(prettyPath)
+	registered := route.routeParser // parsed by the app the route was registered on, with that app's custom constraints
 	route.routeParser = parseRoute(prettyPath, app.customConstraints...)
 	parsedRaw := parseRoute(prefixedPath, app.customConstraints...)
 	declaredConstraints(&route.routeParser, &parsedRaw)
+	inheritedConstraints(&route.routeParser, &registered)
 	if n := len(route.routeParser.segs); app.config.StrictRouting && n > 0 && !route.routeParser.segs[n-1].IsParam {
 		// Strict routing: the slash that ends the pattern is not optional (as in register)
 		route.routeParser.segs[n-1].HasOptionalSlash = false
